@@ -62,6 +62,8 @@ inductive Stmt where
   | kill | barrier
   | store (p v : Nat)
   | call (f : Nat) (args : List Nat) (res : Option Nat)
+  | atomic (p : Nat) (fn : String) (cmp : Option Nat) (v : Nat) (res : Option Nat)
+  | wgul (p res : Nat)                       -- workgroupUniformLoad
   | other (name : String)
   deriving Inhabited
 
@@ -182,6 +184,8 @@ mutual
     | .list [.atom "barrier"] => some .barrier
     | .list [.atom "store", p, v] => do some (.store (← p.nat?) (← v.nat?))
     | .list [.atom "call", f, .list args, r] => do some (.call (← f.nat?) (← args.mapM Sexp.nat?) (← optNat r))
+    | .list [.atom "atomic", p, .atom fn, c, v, r] => do some (.atomic (← p.nat?) fn (← optNat c) (← v.nat?) (← optNat r))
+    | .list [.atom "wgul", p, r] => do some (.wgul (← p.nat?) (← r.nat?))
     | .list [.atom "other", .atom n] => some (.other n)
     | _ => none
   partial def parseBlock : Sexp → Option (List Stmt)
@@ -542,6 +546,8 @@ mutual
           pure (.next, st, { fr with cache := fr.cache.set! h (some v) })
         | none => pure (.next, st, fr)
       | .other n => throw (.unsupported ("statement " ++ n))
+      | .atomic .. => throw (.unsupported "statement StmtAtomic")
+      | .wgul .. => throw (.unsupported "statement StmtWorkGroupUniformLoad")
 
   def execCases (m : Module) : Nat → Nat → List (Option Nat × Bool × List Stmt) → St → Nat → Frame → M (Flow × St × Frame)
     | 0, _, _, _, _, _ => throw .fuel
